@@ -97,6 +97,12 @@ def gen_value(rng: random.Random, tricky: float, depth: int = 0):
     d = {}
     for _ in range(rng.choice([0, 1, 2, 3])):
         key = rng.choice(["a", "b", "k", "id", "to", "data", "hash", "s", "~", "@@", "@", "1", "", "é", "~a1~", "class", "_x", "__x__"])
+        kk = rng.random()
+        if kk < 0.12:
+            key = gen_string(rng, max(tricky, 0.5))[:14]  # keys are strings too: everything a value may contain
+        elif kk < 0.22:
+            # keys that END like one of the encoding's own markers, or contain the quote that ends a key on the wire
+            key = rng.choice(['say "__class__', '"__class__', 'x"@', '"@', '@"', '":', '"@":', "a\\", '\\"@', "__class__ ", " __class__", "@@@", "~9a~", "\\e[", "f{", "x__class__", '{"@":1}', "\n", "\u2028"])
         d[key] = gen_value(rng, tricky, depth + 1)
     return d
 
